@@ -81,7 +81,7 @@ package vgirpc
 //
 //@ func (*HttpServer).checkExternalBudget
 //@   property C19
-//@   requires h != nil && out != nil && h.server != nil
+//@   # (h, out, h.server are dereferenced: non-nil by partial correctness)
 //@   at call newExternalCapError assert [overcap] projected > h.maxExternalizedResponseBytes && arg1 == projected && arg2 == h.maxExternalizedResponseBytes
 //@   ensures [local_refuse] h.server.externalConfig != nil && h.maxExternalizedResponseBytes > 0 && out.dataBatchIdx >= 0 && predicted != 0 &&
 //@       wrap(alreadyUploaded + predicted, "int64") > h.maxExternalizedResponseBytes ==> result != nil
@@ -112,3 +112,13 @@ package vgirpc
 //@   property C19, C30
 //@   at call serializeBatchAsIPC assert [decision] !staysInline(batch, config)
 //@   ensures [inline] old(staysInline(batch, config)) ==> result0 == batch && result2 == 0 && result3 == nil
+
+// ---- C19, producer streams: the wire cap is soft: at every turn of the produce loop the bytes
+// already written are below max_response_bytes (so a response overshoots by at most the batches
+// of the turn that crosses the cap, and then returns (false, nil) for a continuation token).
+// The loop never consults the bytes written: the step obligation fails (recorded finding). ----
+//
+//@ func (*HttpServer).runProduceLoop
+//@   property C19
+//@   requires h.maxResponseBytes <= 0 || wireBytes < h.maxResponseBytes
+//@   loop 0 invariant [softcap] h.maxResponseBytes <= 0 || wireBytes < h.maxResponseBytes
